@@ -106,6 +106,27 @@ pub trait CircuitUni: 'static {
     fn verify(proof: &Self::Proof, cfg: &ProverCfg) -> Result<(), String>;
     /// Preprocessed commitment carried by the proof (for commitment binding by the verifier node).
     fn proof_commitment(proof: &Self::Proof) -> Vec<u64>;
+    /// Evaluate every table's AIR constraints row by row on the given main matrices (p3's
+    /// `DebugConstraintBuilder`, no proof): per table, `None` if satisfied, else (row, failures).
+    fn constraint_check(keys: &Self::Keys, mats: &[p3_matrix::dense::RowMajorMatrix<Self::BF>]) -> Vec<Option<(usize, String)>>;
+    /// Serialize / deserialize through the in-tree wire format (postcard).
+    fn postcard_roundtrip(proof: &Self::Proof) -> Result<Self::Proof, String>;
+}
+
+/// The main matrices the real prover is about to commit (captured through hook H2).
+pub fn capture_matrices<U: CircuitUni>(
+    keys: &U::Keys,
+    traces: &Traces<U::EF>,
+    cfg: &ProverCfg,
+) -> Result<Vec<p3_matrix::dense::RowMajorMatrix<U::BF>>, String> {
+    let store: std::sync::Arc<std::sync::Mutex<Vec<p3_matrix::dense::RowMajorMatrix<U::BF>>>> = Default::default();
+    let s2 = store.clone();
+    let tamper: Tamper<U::BF> = Box::new(move |m| {
+        *s2.lock().unwrap() = m.to_vec();
+    });
+    U::prove(keys, traces, cfg, Some(tamper))?;
+    let v = store.lock().unwrap().clone();
+    Ok(v)
 }
 
 /// Verifier node: native verification + binding of the proof's preprocessed commitment to the
@@ -180,6 +201,7 @@ macro_rules! binomial_universe {
                 p3_circuit_prover::CircuitProverData<p3_test_utils::$params::MyConfig>,
                 Vec<usize>,
                 Vec<String>,
+                Vec<p3_circuit_prover::common::CircuitTableAir<p3_test_utils::$params::MyConfig, $d>>,
             );
             type Proof = p3_circuit_prover::BatchStarkProof<p3_test_utils::$params::MyConfig>;
             const NAME: &'static str = $uname;
@@ -238,11 +260,11 @@ macro_rules! binomial_universe {
                 let (airs, degrees): (Vec<_>, Vec<usize>) = airs_degrees.into_iter().unzip();
                 let config = Self::config();
                 let pd = p3_batch_stark::ProverData::from_airs_and_degrees(&config, &airs, &degrees);
-                Ok((p3_circuit_prover::CircuitProverData::new(pd, prim, npo), degrees, order))
+                Ok((p3_circuit_prover::CircuitProverData::new(pd, prim, npo), degrees, order, airs))
             }
 
             fn key_info(keys: &Self::Keys) -> KeyInfo {
-                let (cpd, degrees, order) = keys;
+                let (cpd, degrees, order, _) = keys;
                 let common = cpd.common_data();
                 let commitment: Vec<u64> = common
                     .preprocessed
@@ -287,6 +309,33 @@ macro_rules! binomial_universe {
             fn verify(proof: &Self::Proof, cfg: &ProverCfg) -> Result<(), String> {
                 let p = Self::prover(cfg);
                 p.verify_all_tables::<Self::EF>(proof).map_err(|e| format!("{e:?}"))
+            }
+
+            fn constraint_check(keys: &Self::Keys, mats: &[p3_matrix::dense::RowMajorMatrix<Self::BF>]) -> Vec<Option<(usize, String)>> {
+                keys.3
+                    .iter()
+                    .zip(mats.iter())
+                    .map(|(air, m)| {
+                        type Ch = <p3_test_utils::$params::MyConfig as p3_uni_stark::StarkGenericConfig>::Challenge;
+                        use p3_circuit_prover::common::CircuitTableAir as T;
+                        use p3_test_utils::air_satisfaction::check_air_satisfies as chk;
+                        match crate::core::pool::observe(|| match air {
+                            T::Const(a) => chk::<Self::BF, Ch, _>(a, m, &[]),
+                            T::Public(a) => chk::<Self::BF, Ch, _>(a, m, &[]),
+                            T::Alu(a) => chk::<Self::BF, Ch, _>(a, m, &[]),
+                            T::Dynamic(_) => Ok(()),
+                        }) {
+                            Ok(Ok(())) => None,
+                            Ok(Err((row, msg))) => Some((row, msg)),
+                            Err(p) => Some((usize::MAX, format!("panic: {p}"))),
+                        }
+                    })
+                    .collect()
+            }
+
+            fn postcard_roundtrip(proof: &Self::Proof) -> Result<Self::Proof, String> {
+                let bytes = postcard::to_allocvec(proof).map_err(|e| format!("{e:?}"))?;
+                postcard::from_bytes(&bytes).map_err(|e| format!("{e:?}"))
             }
 
             fn proof_commitment(proof: &Self::Proof) -> Vec<u64> {
